@@ -320,10 +320,19 @@ func (s *Scope) buildStructLike(cu *CodeUtils, v *parser.StructLike, usedName ..
 	s.globals.MustReserve(fids, _p("ids:"+nn))
 
 	// built-in methods
-	funcs := []string{"Read", "Write", "String"}
+	funcs := []string{"Read", "Write", "String", "InitDefault"}
+	if cu.Features().WithFieldMask {
+		funcs = append(funcs, "Get_FieldMask", "Set_FieldMask")
+		if cu.Features().FieldMaskHalfway {
+			funcs = append(funcs, "Pass_FieldMask")
+		}
+	}
+	if cu.Features().WithReflection {
+		funcs = append(funcs, "GetDescriptor", "GetTypeDescriptor")
+	}
 	if !strings.HasPrefix(v.Name, prefix) {
 		if v.Category == "union" {
-			funcs = append(funcs, "CountSetFields")
+			funcs = append(funcs, "CountSetFields"+sn)
 		}
 		if v.Category == "exception" {
 			funcs = append(funcs, "Error")
